@@ -33,6 +33,7 @@ __attribute__((noinline)) const csrpower_t* e_csrspectrum(ElectricField* f) { re
 __attribute__((noinline)) const integral_t* e_padded(ElectricField* f) { return f->getPaddedBunchProfiles(); }
 __attribute__((noinline)) const meshaxis_t* e_wakepadded(ElectricField* f) { return f->getPaddedWakePotential(); }
 __attribute__((noinline)) void e_wpm_update(WakePotentialMap* m) { m->update(); }
+__attribute__((noinline)) void e_wpm_apply(WakePotentialMap* m) { m->apply(); }
 __attribute__((noinline)) const meshaxis_t* e_force(KickMap* km) { return km->getForce(); }
 __attribute__((noinline)) ElectricField* e_new_field(psp* ps, std::shared_ptr<Impedance>* z, std::vector<uint32_t>* bk, meshindex_t spacing, double f_rev, meshaxis_t revpart, double Ib, double E0, double sigma_delta, double dt)
   { return new ElectricField(*ps, *z, *bk, spacing, nullptr, f_rev, revpart, Ib, E0, sigma_delta, dt); }
@@ -69,7 +70,7 @@ int main(int argc, char** argv) {
         snap_root("field", w.f); snap_root("ps", w.ps); snap_root("z", w.z); snap_root("bk", w.bk); snap_root("wpm", w.wpm);
         snap_root("proj0", (*w.ps)->getProjection(0).origin()); snap_root("zdata", (*w.z)->data());
         snap_root("bp_padded", w.f->getPaddedBunchProfiles()); snap_root("wp_padded", w.f->getPaddedWakePotential());
-        snap_root("wpm_force", w.wpm->getForce());
+        snap_root("wpm_force", w.wpm->getForce()); snap_root("data_in", (*w.ps)->getData()); snap_root("data_out", (*w.ps2)->getData());
         for (int i = 0; i < nplans; i++) { char nm[64]; snprintf(nm, 64, "plan%d_n%d_k%d", i, plans[i].n, plans[i].kind); snap_root(nm, plans[i].plan);
             snprintf(nm, 64, "plan%d_in", i); snap_root(nm, plans[i].in); snprintf(nm, 64, "plan%d_out", i); snap_root(nm, plans[i].out); }
         // calibration of the FFT stub assumptions (§2.4): planning left the zeroed buffers zero; c2r execution leaves its input unchanged
@@ -109,6 +110,7 @@ int main(int argc, char** argv) {
         int nb = bk.size();
         g_ztail = in.i("ztail", 0, 0);
         W w = build(n, N, spacing, bk, 3, false);
+        if (in.has("zupper")) { auto v = in.fv("zupper"); auto* zd = const_cast<impedance_t*>((*w.z)->data()); size_t k = N / 2 + 1; for (size_t i = 0; i + 1 < v.size() && k < N; i += 2, k++) zd[k] = impedance_t(v[i], v[i + 1]); }      // a full-length table: samples above N/2
         if (in.has("z")) { auto v = in.fv("z"); auto* zd = const_cast<impedance_t*>((*w.z)->data()); for (size_t i = 0; i + 1 < v.size() && i / 2 < N; i += 2) zd[i / 2] = impedance_t(v[i], v[i + 1]); }
         FILE* fo = fopen(argv[3], "w");
         // ops: sequence of "prof<k>" installs + calls:  w = wake, c = csr, p = pad
